@@ -2,6 +2,8 @@ import JsonVerif.Lemmas.Leaf
 import JsonVerif.Lemmas.Run
 import JsonVerif.Lemmas.Steps
 import JsonVerif.Model.Entry
+import JsonVerif.Lemmas.Spans
+import JsonVerif.Lemmas.Hub
 /-!
 # C05 — Code map: one exact source span and volume per fragment, in pre-order
 
@@ -14,11 +16,64 @@ volume equals the map's length and every volume is at least 1.
 namespace JsonVerif.C05
 open JsonVerif
 
-/-- Full statement (not yet proved for containers; needs the machine-vs-recursive-descent theorem):
-    stated through the reference semantics `Spans v text` = the list of (start, end, volume)
-    obtained by laying `v`'s fragments over `text`. -/
-def C05_full (WfCm : JValue → List Char → List CMEntry → Prop) : Prop :=
-  ∀ cs v cm, parseStr ⟨false, false⟩ cs = .ok (v, cm) → WfCm v cs cm
+/-- **The code map is the one the grammar induces**, full statement. `SDoc text v cm`
+    (Spec/Spans.lean) lays the RFC 8259 derivation of `text` over byte offsets: `cm` lists, in
+    pre-order, one entry per value, per object entry and per key; each span is exactly the bytes of
+    that fragment's own text (an object entry: first byte of its key to last byte of its value),
+    never the whitespace around it; each volume is the number of entries of that subtree. Whatever
+    the strict parser returns is that code map — every text, every nesting, no bound. -/
+theorem C05_codemap_is_spec (cs : List Char) (v : JValue) (cm : List CMEntry)
+    (h : parseStr ⟨false, false⟩ cs = .ok (v, cm)) : SDoc cs v cm := parse_codemap h
+
+/-- … and every valid document gets it, under every option record. -/
+theorem C05_every_document (o : ParseOptions) (cs : List Char) (v : JValue) (hg : GDoc cs v) :
+    ∃ cm, parseStr o cs = .ok (v, cm) ∧ SDoc cs v cm := by
+  obtain ⟨cm, hc⟩ := parse_complete_strict hg
+  refine ⟨cm, ?_, parse_codemap hc⟩
+  unfold parseChars at hc
+  unfold parseStr parseChars
+  split at hc
+  · cases hc
+  · rename_i v' s' hr
+    rw [so_eq] at hr
+    rw [run_mono (o := o) hr]
+    exact hc
+
+/-- **Volumes**: the volume column is the pre-order list of subtree sizes (`volsV`, the hypothesis
+    of the navigation theorems of C11); one entry per fragment; the root's volume is the map's
+    length. -/
+theorem C05_volumes (cs : List Char) (v : JValue) (cm : List CMEntry)
+    (h : parseStr ⟨false, false⟩ cs = .ok (v, cm)) :
+    volumes cm = volsV v ∧ cm.length = v.frags ∧ (cm.head?.map (·.volume)) = some cm.length := by
+  have hv := parse_volumes h
+  have hl : cm.length = v.frags := by rw [← volsV_length v, ← hv]; simp [volumes]
+  refine ⟨hv, hl, ?_⟩
+  obtain ⟨t, ht⟩ := volsV_head v
+  rw [ht] at hv
+  cases cm with
+  | nil => simp [volumes] at hv
+  | cons e r =>
+    simp only [volumes, List.map_cons, List.cons.injEq] at hv
+    simp [hv.1, ← hl]
+
+/-- The root entry spans exactly the value's text: it starts after the leading whitespace and ends
+    before the trailing whitespace. -/
+theorem C05_root_span (cs : List Char) (v : JValue) (cm : List CMEntry)
+    (h : parseStr ⟨false, false⟩ cs = .ok (v, cm)) :
+    ∃ w1 t w2 rest, cs = w1 ++ t ++ w2 ∧ IsWsL w1 ∧ IsWsL w2 ∧ GValue t v ∧
+      cm = ⟨utf8Len w1, utf8Len w1 + utf8Len t, cm.length⟩ :: rest := by
+  obtain ⟨w1, t, w2, e, h1, hs, h2⟩ := parse_codemap h
+  refine ⟨w1, t, w2, cm.tail, e, h1, h2, hs.erase, ?_⟩
+  cases hs with
+  | null b => rw [utf8Len_null]; rfl
+  | true b => rw [utf8Len_true]; rfl
+  | false b => rw [utf8Len_false]; rfl
+  | number b n hn => rfl
+  | string b t cs hs => rfl
+  | arrEmpty b w hw => simp; omega
+  | arr b t vs cm hi => simp; omega
+  | objEmpty b w hw => simp; omega
+  | obj b w1 k w2 tl key es cm h1 hk h2 ht => simp; omega
 
 /-- **Leaf fragments** (`null`, `true`/`false`, numbers, strings and keys), in every context and
     under every option record: lexing one appends exactly ONE code-map entry — pre-order position =
